@@ -3,6 +3,8 @@ mod c01;
 mod c03;
 mod c04;
 mod c05;
+mod c06;
+mod c08;
 mod c12;
 mod c13;
 mod c14;
@@ -83,6 +85,8 @@ fn main() {
         "C03" => c03::main(tier, replay, wa),
         "C04" => c04::main(tier, replay),
         "C05" => c05::main(tier, replay, wa),
+        "C06" => c06::main(tier, replay),
+        "C08" => c08::main(tier, replay),
         "C12" => c12::main(tier, replay),
         "C13" => c13::main(tier, replay),
         "C14" => c14::main(tier, replay),
